@@ -176,7 +176,11 @@ func (r *vcReplayer) copiesOf(name string) (int, bool) {
 		if id == oid {
 			// several submitted bundles may share source and time: tell them apart by the stored payload
 			if r.cfg.Cat[name].Tsg > 0 {
-				if _, _, seq, _ := r.w.lookup(name); uint64(seq) != id.Timestamp[1] {
+				found, _, seq, _ := r.w.lookup(name)
+				if !found {
+					return 0, false // released from the store: its counter cannot be told from those of its group any more
+				}
+				if uint64(seq) != id.Timestamp[1] {
 					continue
 				}
 			}
@@ -715,6 +719,9 @@ func (r *vcReplayer) run() string {
 			if !isCat || (e != nil && e.Direct) || a.Dst == sd.Peer {
 				continue
 			}
+			if r.cfg.Algo == "dtlsr" && a.Dst != "bcast" {
+				continue // the property speaks of replicating algorithms: DTLSR only for its broadcast bundles (unicast follows the table)
+			}
 			if a.Prev == sd.Peer {
 				r.viol("C13", "select/sent-back-to-previous-node", fmt.Sprintf("bundle %s was offered to %s, the node it came from", sd.Name, sd.Peer), nil)
 				return "viol"
@@ -733,6 +740,11 @@ func (r *vcReplayer) run() string {
 		if r.cfg.Algo == "spray" || r.cfg.Algo == "binary_spray" {
 			for name, want := range s.Exp.Copies {
 				got, has := r.copiesOf(name)
+				if !has && r.cfg.Cat[name].Tsg > 0 {
+					if found, _, _, _ := r.w.lookup(name); !found {
+						continue
+					}
+				}
 				if !has || got != want {
 					r.viol("C18", "spray/copy-count", fmt.Sprintf("bundle %s: the node holds %d copies (known: %v), expected %d", name, got, has, want), nil)
 					return "viol"
